@@ -115,6 +115,26 @@ func genScaling(r *runner) {
 			}
 			return mk("config-normalize", "in", js(l))
 		}},
+		{"prefixedby-many-keys", func(n int) Case {
+			m := VS{T: "ms"}
+			for i := 0; i < n/10; i++ {
+				m.K = append(m.K, sv("pre"+strconv.Itoa(i)))
+				m.L = append(m.L, sv("v"))
+			}
+			return mk("config-prefixedby", "in", js(m), "prefix", hx([]byte("pre")))
+		}},
+		{"prefixedby-long-key", func(n int) Case {
+			m := VS{T: "m", K: []VS{sv("p" + string(rep("É\xff\xe2\x82a", n))), sv("p")}, L: []VS{sv("v"), sv("w")}}
+			return mk("retry-decodeconfigwithprefix", "in", js(m), "prefix", hx([]byte("p")), "init", "zero")
+		}},
+		{"retry-long-values", func(n int) Case {
+			m := VS{T: "ms", K: []VS{sv("policy"), sv("duration"), sv("maxRetries")}, L: []VS{sv(string(rep("eXponential", n))), sv(string(rep("1h", n))), sv(string(rep("9", n)))}}
+			return mk("retry-decodeconfig", "in", js(m), "init", "zero")
+		}},
+		{"istruthy-spaces", func(n int) Case { return mk("utils-istruthy", "s", hx(append(rep(" \t", n), 'y'))) }},
+		{"envduration-long", func(n int) Case {
+			return mk("utils-getenvduration", "v", hx(rep("1h", n)), "def", "1", "min", "0", "max", "9223372036854775807")
+		}},
 		{"uppercase", func(n int) Case {
 			return mk("streams-uppercase", "data", hx(rep("a\xffé", n)), "chunk", "3", "eofwd", "0")
 		}},
